@@ -35,6 +35,7 @@ func c17(c *core.Check) {
 	c.Explain = "COVER + LINT + SIB on tool/trimmer/dump. (1) Every attribute of every AST node type (fields enumerated through go/types; resolution-only attributes on a reasoned ignore list) is read somewhere in the call-graph closure of DumpIDL: an attribute that is never read cannot be printed, so the re-parsed AST would differ in it. " +
 		"(2) index/len lint: inside `for i, x := range S` a comparison of i with len(T)±c must have T = S (separator placement). " +
 		"(3) argument printing and throws printing are alpha-equivalent loops (compared with each other after renaming loop variables and abstracting the ranged slice). " +
+		"(4) every formatting call in the dumper (fmt.*f and package functions that forward a format parameter) has a constant format string: IDL text is never interpreted as verbs. " +
 		"NOT decided: escaping of literals, numeric formatting, re-parse equality as behaviour; (1b) additionally every loop that prints a list of fields (struct fields, arguments, throws) reads id, name, requiredness, type, default and annotations."
 	c.RuleText = "one obligation per (node type, attribute), per index/len comparison, per sibling pair"
 	c.Assume = []string{"VTA call graph over-approximates calls"}
@@ -139,6 +140,7 @@ func c17(c *core.Check) {
 	c.Min("field-list-printer", 3)
 	c.Analysed["index_len_sites"] = n
 	c.Min("index-len", 4)
+	c17formats(c)
 	// (3) siblings
 	if len(loops) == 2 {
 		a := rules.NormalizeLoop(prog.Fset, pk.TypesInfo, loops[0])
